@@ -131,6 +131,10 @@ func (e *esdtTransferParser) parseMultiESDTNFTTransfer(sndAddr, rcvAddr []byte, 
 		isTxAtSender = true
 	}
 
+	// there can not be more transfers than arguments - checked first so that the multiplication below can not overflow
+	if numOfTransfer.Uint64() > uint64(len(args)) {
+		return nil, ErrNotEnoughArguments
+	}
 	minLenArgs := ArgsPerTransfer*numOfTransfer.Uint64() + startIndex
 	if uint64(len(args)) < minLenArgs {
 		return nil, ErrNotEnoughArguments
